@@ -136,11 +136,14 @@ def build_stream(r, max_input, reverse=False):
     return script, frames, n_cont, n_bad, refusals_before, shape
 
 
-def gen_response(r, i, tag, reverse):
+def gen_response(r, i, tag, reverse, bounds=None):
+    """bounds (list): receives the offsets inside the returned bytes at which a complete response ends"""
     if not reverse:
         return tag + b" OK r%d\r\n" % i
     out = bytearray()
     for _ in range(r.randint(0, 6)):
+        if bounds is not None:
+            bounds.append(len(out))
         y = r.random()
         if y < 0.5:
             out += b"* %d EXISTS\r\n" % r.randint(0, 99)
@@ -154,7 +157,11 @@ def gen_response(r, i, tag, reverse):
             out += b"* %d FETCH (BODY[] {%d}\r\n" % (r.randint(1, 9), n) + data + b")\r\n"
         else:
             out += b"* OK [ALERT] " + bytes(r.choice(b"xyz ") for _ in range(r.randint(0, 900))) + b"\r\n"
+    if bounds is not None:
+        bounds.append(len(out))
     out += tag + b" OK r%d\r\n" % i
+    if bounds is not None:
+        bounds.append(len(out))
     return bytes(out)
 
 
@@ -218,6 +225,8 @@ def execute(program, opts):
     world.known = KnownFindings()
     r = random.Random(program["seed"] ^ 0xC19)
     reverse = program.get("reverse", False)
+    mixed = program.get("mixed", False)  # client stream with synchronising literals AND responses with literals, overlapping
+    boundaries = {0}
     max_input = program["knobs"]["max_input"]
     script, frames_exp, n_cont, n_bad, refusals_before, shape = build_stream(random.Random(program["stream_seed"]), max_input, reverse)
     fe = FrontEnd(world, ctx.jail, {"alice": {"password": "alicepw"}})
@@ -239,11 +248,24 @@ def execute(program, opts):
                 data = await reader.readexactly(int(m.group(1)))
                 got_frames.append(data)
                 tag = data.split(b" ", 1)[0][:20] or b"*"
-                resp = gen_response(rr, i, tag, reverse)
+                bl = [] if mixed else None
+                resp = gen_response(rr, i, tag, reverse or mixed, bl)
                 i += 1
+                base = len(sent_by_responder)
                 sent_by_responder.extend(resp)
-                writer.write(resp)
-                await writer.drain()
+                if mixed:
+                    boundaries.update(base + b_ for b_ in bl)
+                    # the user process takes its time: the response goes out in pieces
+                    k_ = 0
+                    while k_ < len(resp):
+                        step = rr.choice((7, 40, 200, 5000, 70000))
+                        writer.write(resp[k_:k_ + step])
+                        await writer.drain()
+                        k_ += step
+                        await asyncio.sleep(rr.choice((0.0, 0.0, 0.001, 0.01, 0.05)))
+                else:
+                    writer.write(resp)
+                    await writer.drain()
         except (asyncio.IncompleteReadError, ConnectionError, asyncio.LimitOverrunError):
             pass
 
@@ -320,6 +342,28 @@ def execute(program, opts):
         # ---- relay integrity: what the responder wrote reaches the client unmodified, in order
         C("c19_relay")
         rest = data
+        if mixed:
+            # what the front-end says itself ('+', BAD) may only stand between complete responses of the user process
+            C("c19_interleave")
+            pos = 0  # offset in the user process's stream
+            k_ = 0
+            kept = bytearray()
+            while k_ < len(data):
+                hit = None
+                if data[k_:k_ + 1] in (b"+", b"*"):
+                    for ln in FE_LINES:
+                        if data.startswith(ln, k_):
+                            hit = ln
+                            break
+                if hit is not None:
+                    if pos not in boundaries:
+                        V(PROP, "relay_interleaved", at=pos, inserted=hit[:40], context=bytes(kept[-50:]))
+                        break
+                    k_ += len(hit)
+                    continue
+                kept.append(data[k_])
+                pos += 1
+                k_ += 1
         if not reverse:
             # (in reverse runs the stream is built so that the front-end has nothing of its own to say)
             for ln in FE_LINES:
@@ -353,11 +397,12 @@ def execute(program, opts):
 def generate(seed, tier, index, kf):
     r = random.Random(seed)
     reverse = r.random() < 0.3
+    mixed = (not reverse) and r.random() < 0.2
     return {
-        "format": 1, "seed": seed, "world": "B", "stream_seed": r.getrandbits(40), "reverse": reverse,
+        "format": 1, "seed": seed, "world": "B", "stream_seed": r.getrandbits(40), "reverse": reverse, "mixed": mixed,
         "knobs": {"max_input": r.choice((2048, 4096, 8192, 65536, 262144)) if not reverse else 1 << 20},
         "seg": r.choice(("bytes", "mixed", "mixed", "whole", "coalesce", "big")), "seg_back": r.choice(("whole", "big")) if reverse else "whole",
-        "pace": r.random() < 0.5,
+        "pace": True if mixed else r.random() < 0.5,
         "latency": {"exec": "zero", "db": "zero", "net": r.choice(("zero", "small", "bimodal", "wide"))}, "ops": [], "props": [PROP],
         "step_cap": 1_500_000,
     }
